@@ -330,6 +330,22 @@ let cls_mode path =
    with End_of_file -> ());
   close_in ic
 
+(* -embed SRC -var NAME: the model of static_code_generator; writes the generated file to stdout and
+   reports on stderr whether the theorem's hypothesis holds and the value of the constant's length *)
+let embed_mode path var =
+  let ic = open_in_bin path in
+  let n = in_channel_length ic in
+  let s = really_input_string ic n in
+  close_in ic;
+  let src = bytes_of_str s in
+  let out = embed src (bytes_of_str var) in
+  print_string (str_of_bytes out);
+  let k = join_lines (kept src) in
+  Printf.eprintf "kept_has_backquote=%b kept_has_cr=%b kept_bytes=%d\n" (has (n_of_int 96) k) (has (n_of_int 13) k) (List.length k);
+  (match raw_string_value out with
+   | Some v -> Printf.eprintf "constant_value_bytes=%d\n" (List.length v)
+   | None -> Printf.eprintf "constant_value=none\n")
+
 (* ---------- front-end AST (Gen model) ---------- *)
 let rec aexpr_of = function
   | L [A "lit"; v; ic] -> ALit (hexb v, bool_a ic)
@@ -422,12 +438,14 @@ let bl_mode path =
   close_in ic
 
 let () =
-  let tables = ref "" and cases = ref "" and fuel = ref 4000 and dec = ref "" and bl = ref "" and prep = ref "" and cls = ref "" in
+  let tables = ref "" and cases = ref "" and fuel = ref 4000 and dec = ref "" and bl = ref "" and prep = ref "" and cls = ref "" and emb = ref "" and var = ref "staticCode" in
   Arg.parse [ ("-tables", Arg.Set_string tables, "unicode tables file");
               ("-cases", Arg.Set_string cases, "case file");
               ("-pq", Arg.String set_pq, "analysis quirks, 2 bits: nullable_inner pred_first (default 01 = current tree: nullable_inner repaired by fix 46465c9)");
               ("-prep", Arg.Set_string prep, "file of grammars: PrepareGrammar model over all iteration orders + LRSpec");
               ("-cls", Arg.Set_string cls, "file of hex class texts: the model of ast.CharClassMatcher.parse under both escape settings");
+              ("-embed", Arg.Set_string emb, "source file: print the file static_code_generator writes for it (model)");
+              ("-var", Arg.Set_string var, "variable name for -embed");
               ("-bl", Arg.Set_string bl, "file of classes: print Basic-Latin tables of the model");
               ("-decode", Arg.Set_string dec, "file of hex strings: print decode results");
               ("-quirks", Arg.String set_quirks, "4 bits: lit_eof stale_ctx recover_scope memo_nocharge (default 1111 = faithful)");
@@ -435,6 +453,7 @@ let () =
               ("-fuel", Arg.Set_int fuel, "fuel") ] (fun _ -> ()) "driver";
   if !dec <> "" then (decode_mode !dec; exit 0);
   if !cls <> "" then (cls_mode !cls; exit 0);
+  if !emb <> "" then (embed_mode !emb !var; exit 0);
   if !tables <> "" then load_tables !tables;
   if !bl <> "" then (bl_mode !bl; exit 0);
   if !prep <> "" then (Random.init 7; prep_mode !prep; exit 0);
